@@ -46,13 +46,17 @@ structure TjInv (g : Graph) (st : State) : Prop where
   sorted : st.stack.Pairwise (fun a b => vIdx st b < vIdx st a)
   bound : ∀ x, x ∈ st.stack → vIdx st x < st.nextIndex
   back : compsOk g [] st.components = true
+  /-- a stack vertex reaches every stack vertex above it -/
+  reach : st.stack.Pairwise (fun a b => Reach g b a)
+  /-- the members of an emitted component reach each other -/
+  scc : ∀ c, c ∈ st.components → ∀ x y, x ∈ c → y ∈ c → Reach g x y
 
 theorem TjInv.congr {g : Graph} {st st' : State} (h : TjInv g st) (hs : st'.stack = st.stack)
     (hc : st'.components = st.components) (hn : st'.nextIndex = st.nextIndex)
     (hh : ∀ x, Has st' x ↔ Has st x) (hi : ∀ x, vIdx st' x = vIdx st x) : TjInv g st' := by
   refine ⟨by rw [hs, hc]; exact h.nodup, fun x => by rw [hh, hs, hc]; exact h.vis x,
     fun x hx => h.nodes x ((hh x).1 hx), ?_, fun x hx => by rw [hi, hn]; exact h.bound x (hs ▸ hx),
-    by rw [hc]; exact h.back⟩
+    by rw [hc]; exact h.back, by rw [hs]; exact h.reach, by rw [hc]; exact h.scc⟩
   rw [hs]
   exact h.sorted.imp (fun {a b} hab => by rw [hi, hi]; exact hab)
 
@@ -66,6 +70,15 @@ theorem TjInv.split {g : Graph} {st : State} (h : TjInv g st) {new base : List N
   rw [List.pairwise_cons] at h2
   exact ⟨fun a ha => h3 a ha v (by simp), fun b hb => h2.1 b hb,
     fun a ha b hb => h3 a ha b (by simp [hb])⟩
+
+theorem TjInv.rsplit {g : Graph} {st : State} (h : TjInv g st) {new base : List Nat} {v : Nat}
+    (hs : st.stack = new ++ v :: base) :
+    (∀ a, a ∈ new → Reach g v a) ∧ (∀ b, b ∈ base → Reach g b v) := by
+  have := h.reach
+  rw [hs, List.pairwise_append] at this
+  obtain ⟨_, h2, h3⟩ := this
+  rw [List.pairwise_cons] at h2
+  exact ⟨fun a ha => h3 a ha v (by simp), fun b hb => h2.1 b hb⟩
 
 theorem updateLowlink_spec (st : State) (v new : Nat) (st' : State)
     (h : st.updateLowlink v new = .ok st') :
@@ -113,12 +126,14 @@ structure ScPostOf (g : Graph) (st : State) (v : Nat) (st' : State) : Prop where
   frame : ∀ x, Has st x → st'.vertices.lookup x = st.vertices.lookup x
   has : Has st' v
   idxv : vIdx st' v = st.nextIndex
-  lowdom : vLow st' v = vIdx st' v ∨ ∃ b, b ∈ st.stack ∧ vLow st' v = vIdx st' b
+  lowdom : vLow st' v = vIdx st' v ∨ ∃ b, b ∈ st.stack ∧ vLow st' v = vIdx st' b ∧ Reach g v b
   stack : ∃ new, st'.stack = new ++ st.stack ∧ (new = [] ∨ vLow st' v ≠ vIdx st' v) ∧
-    ∀ x, x ∈ new → ∀ w, Edge g x w → Has st' w ∧ (w ∈ st.stack → vLow st' v ≤ vIdx st' w)
+    (∀ x, x ∈ new → ∀ w, Edge g x w → Has st' w ∧ (w ∈ st.stack → vLow st' v ≤ vIdx st' w)) ∧
+    ∀ x, x ∈ new → Reach g x v
 
 def ScPost (g : Graph) (sc : State → Nat → M State) : Prop :=
-  ∀ st v st', TjInv g st → ¬ Has st v → v ∈ g.nodes → sc st v = .ok st' → ScPostOf g st v st'
+  ∀ st v st', TjInv g st → ¬ Has st v → v ∈ g.nodes → (∀ y, y ∈ st.stack → Reach g y v) →
+    sc st v = .ok st' → ScPostOf g st v st'
 
 /-- invariant of the `for w in references.get(&v)` loop of the call on `v`
 whose stack base is `base` -/
@@ -126,9 +141,10 @@ structure ScLoopInv (g : Graph) (v : Nat) (base : List Nat) (st : State) : Prop 
   inv : TjInv g st
   has : Has st v
   lowle : vLow st v ≤ vIdx st v
-  lowdom : vLow st v = vIdx st v ∨ ∃ b, b ∈ base ∧ vLow st v = vIdx st b
+  lowdom : vLow st v = vIdx st v ∨ ∃ b, b ∈ base ∧ vLow st v = vIdx st b ∧ Reach g v b
   stack : ∃ new, st.stack = new ++ v :: base ∧
-    ∀ x, x ∈ new → ∀ w, Edge g x w → Has st w ∧ (w ∈ v :: base → vLow st v ≤ vIdx st w)
+    (∀ x, x ∈ new → ∀ w, Edge g x w → Has st w ∧ (w ∈ v :: base → vLow st v ≤ vIdx st w)) ∧
+    ∀ x, x ∈ new → Reach g x v
 
 /-- how the loop moves the state -/
 structure ScLoopRel (v : Nat) (st st' : State) : Prop where
@@ -157,7 +173,7 @@ theorem ScLoopRel.refl (v : Nat) (st : State) : ScLoopRel v st st :=
 
 theorem visitRefs_post (g : Graph) (sc : State → Nat → M State) (hsc : ScPost g sc)
     (v : Nat) (base : List Nat) :
-    ∀ (ws : List Nat) (st st' : State), (∀ w, w ∈ ws → w ∈ g.nodes) → ScLoopInv g v base st →
+    ∀ (ws : List Nat) (st st' : State), (∀ w, w ∈ ws → Edge g v w) → ScLoopInv g v base st →
       visitRefs sc v ws st = .ok st' →
       ScLoopInv g v base st' ∧ ScLoopRel v st st' ∧
         ∀ w, w ∈ ws → Has st' w ∧ (w ∈ v :: base → vLow st' v ≤ vIdx st' w) := by
@@ -170,12 +186,23 @@ theorem visitRefs_post (g : Graph) (sc : State → Nat → M State) (hsc : ScPos
     exact ⟨hI, ScLoopRel.refl v st, fun w hw => by simp at hw⟩
   | cons w ws ih =>
     intro st st' hn hI h
-    have hn' : ∀ x, x ∈ ws → x ∈ g.nodes := fun x hx => hn x (List.mem_cons_of_mem _ hx)
+    have hn' : ∀ x, x ∈ ws → Edge g v x := fun x hx => hn x (List.mem_cons_of_mem _ hx)
+    have hvw : Edge g v w := hn w (by simp)
     have step : ∃ st2, visitRefs sc v ws st2 = .ok st' ∧ ScLoopInv g v base st2 ∧ ScLoopRel v st st2 ∧
         (Has st2 w ∧ (w ∈ v :: base → vLow st2 v ≤ vIdx st2 w)) := by
-      obtain ⟨new, hstk, hcl⟩ := hI.stack
+      obtain ⟨new, hstk, hcl, hrv⟩ := hI.stack
       have hvstk : v ∈ st.stack := by rw [hstk]; simp
       obtain ⟨hnewgt, hbaselt, _⟩ := hI.inv.split hstk
+      obtain ⟨_, hbasereach⟩ := hI.inv.rsplit hstk
+      -- every stack vertex reaches `v`
+      have hallv : ∀ y, y ∈ st.stack → Reach g y v := by
+        intro y hy
+        rw [hstk] at hy
+        rcases List.mem_append.1 hy with hy | hy
+        · exact hrv y hy
+        · rcases List.mem_cons.1 hy with e | hy
+          · subst e; exact Reach.refl _
+          · exact hbasereach y hy
       have hbasestk : ∀ b, b ∈ v :: base → b ∈ st.stack := fun b hb => by
         rw [hstk]; exact List.mem_append_right _ hb
       have hbasehas : ∀ b, b ∈ v :: base → Has st b := fun b hb =>
@@ -187,7 +214,8 @@ theorem visitRefs_post (g : Graph) (sc : State → Nat → M State) (hsc : ScPos
         cases h1 : sc st w with
         | error e => simp [h1, bind, Except.bind] at h
         | ok st1 =>
-          have P := hsc st w st1 hI.inv hw0 (hn w (by simp)) h1
+          have P := hsc st w st1 hI.inv hw0 (refs_mem_nodes hvw)
+            (fun y hy => (hallv y hy).trans (Reach.single hvw)) h1
           obtain ⟨vs, hvs⟩ := vertex_ok st1 w P.has
           obtain ⟨hlw, _⟩ := vertex_low hvs
           cases hu : st1.updateLowlink v vs.lowlink with
@@ -196,7 +224,7 @@ theorem visitRefs_post (g : Graph) (sc : State → Nat → M State) (hsc : ScPos
             simp only [h1, hvs, hu, bind, Except.bind] at h
             obtain ⟨us, uc, un, uh, ui, ul, uf⟩ := updateLowlink_spec st1 v _ st2 hu
             obtain ⟨fvi, fvl, fvh⟩ := lookup_congr (P.frame v hI.has)
-            obtain ⟨cnew, cstk, cpop, ccl⟩ := P.stack
+            obtain ⟨cnew, cstk, cpop, ccl, crv⟩ := P.stack
             have hidxw : vIdx st v < vIdx st1 w := by rw [P.idxv]; exact hI.inv.bound v hvstk
             have hidx1 : ∀ x, Has st x → vIdx st1 x = vIdx st x := fun x hx =>
               (lookup_congr (P.frame x hx)).1
@@ -211,13 +239,13 @@ theorem visitRefs_post (g : Graph) (sc : State → Nat → M State) (hsc : ScPos
               ⟨?_, ?_, ?_, fun _ => hhas v hI.has⟩, ?_⟩
             · omega
             · have keep : vLow st2 v = vLow st v →
-                  (vLow st2 v = vIdx st2 v ∨ ∃ b, b ∈ base ∧ vLow st2 v = vIdx st2 b) := by
+                  (vLow st2 v = vIdx st2 v ∨ ∃ b, b ∈ base ∧ vLow st2 v = vIdx st2 b ∧ Reach g v b) := by
                 intro hmin
-                rcases hI.lowdom with h0 | ⟨b, hb, h0⟩
+                rcases hI.lowdom with h0 | ⟨b, hb, h0, hr0⟩
                 · left; omega
                 · right
-                  exact ⟨b, hb, by have := hidx b (hbasehas b (List.mem_cons_of_mem _ hb)); omega⟩
-              rcases P.lowdom with hd | ⟨b, hb, hd⟩
+                  exact ⟨b, hb, by have := hidx b (hbasehas b (List.mem_cons_of_mem _ hb)); omega, hr0⟩
+              rcases P.lowdom with hd | ⟨b, hb, hd, hrb⟩
               · exact keep (by omega)
               · have hbi : vIdx st1 b = vIdx st b := hidx1 b ((hI.inv.vis b).2 (Or.inl hb))
                 rw [hstk] at hb
@@ -230,8 +258,21 @@ theorem visitRefs_post (g : Graph) (sc : State → Nat → M State) (hsc : ScPos
                     · exact keep (by omega)
                     · right
                       exact ⟨b, hb, by
-                        have := hidx b (hbasehas b (List.mem_cons_of_mem _ hb)); omega⟩
-            · refine ⟨cnew ++ new, by rw [us, cstk, hstk, List.append_assoc], ?_⟩
+                        have := hidx b (hbasehas b (List.mem_cons_of_mem _ hb)); omega,
+                        .step hvw hrb⟩
+            · refine ⟨cnew ++ new, by rw [us, cstk, hstk, List.append_assoc], ?_, ?_⟩
+              rotate_left
+              · intro x hx
+                rcases List.mem_append.1 hx with hx | hx
+                · -- the child stayed on the stack: it reaches a stack vertex, which reaches `v`
+                  have hne : vLow st1 w ≠ vIdx st1 w := by
+                    rcases cpop with e | e
+                    · rw [e] at hx; simp at hx
+                    · exact e
+                  rcases P.lowdom with hd | ⟨b, hb, _, hrb⟩
+                  · exact absurd hd hne
+                  · exact (crv x hx).trans (hrb.trans (hallv b hb))
+                · exact hrv x hx
               intro x hx w' e
               rcases List.mem_append.1 hx with hx | hx
               · obtain ⟨a, b⟩ := ccl x hx w' e
@@ -272,12 +313,12 @@ theorem visitRefs_post (g : Graph) (sc : State → Nat → M State) (hsc : ScPos
               ⟨fun x e _ => uf x e, by omega, ui v, fun _ => (uh v).2 hI.has⟩, ?_⟩
             · omega
             · have keep : vLow st2 v = vLow st v →
-                  (vLow st2 v = vIdx st2 v ∨ ∃ b, b ∈ base ∧ vLow st2 v = vIdx st2 b) := by
+                  (vLow st2 v = vIdx st2 v ∨ ∃ b, b ∈ base ∧ vLow st2 v = vIdx st2 b ∧ Reach g v b) := by
                 intro hmin
-                rcases hI.lowdom with h0 | ⟨b, hb, h0⟩
+                rcases hI.lowdom with h0 | ⟨b, hb, h0, hr0⟩
                 · left; omega
                 · right
-                  exact ⟨b, hb, by have := ui b; omega⟩
+                  exact ⟨b, hb, by have := ui b; omega, hr0⟩
               rw [hstk] at hwstk
               rcases List.mem_append.1 hwstk with hb | hb
               · have := hnewgt w hb
@@ -287,8 +328,8 @@ theorem visitRefs_post (g : Graph) (sc : State → Nat → M State) (hsc : ScPos
                 · by_cases hc : vLow st v ≤ vIdx st w
                   · exact keep (by omega)
                   · right
-                    exact ⟨w, hb, by have := ui w; omega⟩
-            · refine ⟨new, by rw [us, hstk], ?_⟩
+                    exact ⟨w, hb, by have := ui w; omega, Reach.single hvw⟩
+            · refine ⟨new, by rw [us, hstk], ?_, hrv⟩
               intro x hx w' e
               obtain ⟨a, b⟩ := hcl x hx w' e
               refine ⟨(uh w').2 a, fun hb => ?_⟩
@@ -332,9 +373,9 @@ theorem popUntil_split (v : Nat) : ∀ (new base acc : List Nat), v ∉ new →
 theorem strongConnect_post (g : Graph) : ∀ fuel, ScPost g (strongConnect g fuel) := by
   intro fuel
   induction fuel with
-  | zero => intro st v st' _ _ _ h; simp [strongConnect] at h
+  | zero => intro st v st' _ _ _ _ h; simp [strongConnect] at h
   | succ fuel ih =>
-    intro st v st' hT h0 hvn h
+    intro st v st' hT h0 hvn hreach h
     let st0 : State :=
       { st with nextIndex := st.nextIndex + 1,
                 vertices := amInsert v ⟨st.nextIndex, st.nextIndex⟩ st.vertices,
@@ -351,7 +392,11 @@ theorem strongConnect_post (g : Graph) : ∀ fuel, ScPost g (strongConnect g fue
     have hvstk : v ∉ st.stack := fun hm => h0 ((hT.vis v).2 (Or.inl hm))
     have hvc : v ∉ st.components.flatten := fun hm => h0 ((hT.vis v).2 (Or.inr hm))
     have hT0 : TjInv g st0 := by
-      refine ⟨?_, ?_, ?_, ?_, ?_, hT.back⟩
+      refine ⟨?_, ?_, ?_, ?_, ?_, hT.back, ?_, hT.scc⟩
+      rotate_right
+      · show (v :: st.stack).Pairwise _
+        rw [List.pairwise_cons]
+        exact ⟨fun b hb => hreach b hb, hT.reach⟩
       · show (v :: st.stack ++ st.components.flatten).Nodup
         rw [List.cons_append, List.nodup_cons]
         exact ⟨by simp [hvstk, hvc], hT.nodup⟩
@@ -383,7 +428,7 @@ theorem strongConnect_post (g : Graph) : ∀ fuel, ScPost g (strongConnect g fue
           rw [(lookup_congr (hfr0 x hb')).1]
           exact Nat.lt_succ_of_lt (hT.bound x hx)
     have hL0 : ScLoopInv g v st.stack st0 :=
-      ⟨hT0, hh0v, by omega, Or.inl (by omega), ⟨[], rfl, by simp⟩⟩
+      ⟨hT0, hh0v, by omega, Or.inl (by omega), ⟨[], rfl, by simp, by simp⟩⟩
     cases h1 : visitRefs (strongConnect g fuel) v (g.refs v) st0 with
     | error e =>
       have h1' : visitRefs (strongConnect g fuel) v (g.refs v)
@@ -395,11 +440,24 @@ theorem strongConnect_post (g : Graph) : ∀ fuel, ScPost g (strongConnect g fue
           { stack := v :: st.stack, vertices := amInsert v ⟨st.nextIndex, st.nextIndex⟩ st.vertices,
             nextIndex := st.nextIndex + 1, components := st.components } = .ok st1 := h1
       obtain ⟨hI, r, hws⟩ := visitRefs_post g _ ih v st.stack (g.refs v) st0 st1
-        (fun w hw => refs_mem_nodes hw) hL0 h1
+        (fun w hw => hw) hL0 h1
       obtain ⟨vs, hvs⟩ := vertex_ok st1 v hI.has
       obtain ⟨hlv, hiv⟩ := vertex_low hvs
-      obtain ⟨new, hstk, hcl⟩ := hI.stack
+      obtain ⟨new, hstk, hcl, hrv⟩ := hI.stack
       obtain ⟨hnewgt, hbaselt, _⟩ := hI.inv.split hstk
+      obtain ⟨hvreach, _⟩ := hI.inv.rsplit hstk
+      have hrv' : ∀ x, x ∈ new ++ [v] → Reach g x v := by
+        intro x hx
+        rcases List.mem_append.1 hx with hx | hx
+        · exact hrv x hx
+        · have : x = v := by simpa using hx
+          subst this; exact Reach.refl _
+      have hvr' : ∀ x, x ∈ new ++ [v] → Reach g v x := by
+        intro x hx
+        rcases List.mem_append.1 hx with hx | hx
+        · exact hvreach x hx
+        · have : x = v := by simpa using hx
+          subst this; exact Reach.refl _
       have hframe : ∀ x, Has st x → st1.vertices.lookup x = st.vertices.lookup x := fun x hx => by
         rw [r.frame x (hne x hx) ((lookup_congr (hfr0 x hx)).2.2.2 hx), hfr0 x hx]
       have hidxv : vIdx st1 v = st.nextIndex := by rw [r.idxv, hi0v]
@@ -427,8 +485,20 @@ theorem strongConnect_post (g : Graph) : ∀ fuel, ScPost g (strongConnect g fue
         rw [hstk, popUntil_split v new st.stack [] hvnew] at h
         simp only [List.reverse_nil, List.nil_append, Except.ok.injEq] at h
         subst h
-        refine ⟨⟨?_, ?_, hI.inv.nodes, ?_, ?_, ?_⟩, hframe, hI.has, hidxv, Or.inl heq',
-          ⟨[], rfl, Or.inl rfl, by simp⟩⟩
+        refine ⟨⟨?_, ?_, hI.inv.nodes, ?_, ?_, ?_, ?_, ?_⟩, hframe, hI.has, hidxv, Or.inl heq',
+          ⟨[], rfl, Or.inl rfl, by simp, by simp⟩⟩
+        rotate_right 2
+        · show st.stack.Pairwise _
+          have := hI.inv.reach
+          rw [hstk, List.pairwise_append, List.pairwise_cons] at this
+          exact this.2.1.2
+        · show ∀ c, c ∈ st1.components ++ [new ++ [v]] → _
+          intro c hc x y hx hy
+          rcases List.mem_append.1 hc with hc | hc
+          · exact hI.inv.scc c hc x y hx hy
+          · have : c = new ++ [v] := by simpa using hc
+            subst this
+            exact (hrv' x hx).trans (hvr' y hy)
         · show (st.stack ++ (st1.components ++ [new ++ [v]]).flatten).Nodup
           refine (List.Perm.nodup_iff ?_).1 hnd
           refine List.perm_iff_count.2 (fun a => ?_)
@@ -473,7 +543,7 @@ theorem strongConnect_post (g : Graph) : ∀ fuel, ScPost g (strongConnect g fue
         simp only [Except.ok.injEq] at h
         subst h
         refine ⟨hI.inv, hframe, hI.has, hidxv, hI.lowdom,
-          ⟨new ++ [v], by rw [hstk]; simp, Or.inr hneq', ?_⟩⟩
+          ⟨new ++ [v], by rw [hstk]; simp, Or.inr hneq', ?_, hrv'⟩⟩
         intro x hx w e
         obtain ⟨a, b⟩ := hall x hx w e
         exact ⟨a, fun hs => b (List.mem_cons_of_mem _ hs)⟩
@@ -499,13 +569,14 @@ theorem tarjanLoop_post (g : Graph) (fuel : Nat) : ∀ (vs : List Nat) (st st' :
       | error e => simp [h1, bind, Except.bind] at h
       | ok st1 =>
         simp only [h1, bind, Except.bind] at h
-        have P := strongConnect_post g fuel st v st1 hT h0 (hn v (by simp)) h1
+        have P := strongConnect_post g fuel st v st1 hT h0 (hn v (by simp))
+          (fun y hy => by rw [hs] at hy; simp at hy) h1
         have hs1 : st1.stack = [] := by
           obtain ⟨new, hstk, hpop, _⟩ := P.stack
           rcases hpop with e | hne
           · rw [hstk, e, hs]; rfl
           · exfalso
-            rcases P.lowdom with hd | ⟨b, hb, _⟩
+            rcases P.lowdom with hd | ⟨b, hb, _, _⟩
             · exact hne hd
             · rw [hs] at hb; simp at hb
         obtain ⟨a, b, c, d⟩ := ih st1 st' hn' P.inv hs1 h
@@ -539,7 +610,8 @@ theorem tarjan_topo (g : Graph) (hkeys : g.keys.Nodup) (comps : List (List Nat))
     subst h
     have hT0 : TjInv g State.new :=
       ⟨by simp [State.new], fun x => by simp [State.new, Has], fun x hx => by simp [State.new, Has] at hx,
-        by simp [State.new], by simp [State.new], by simp [State.new, compsOk]⟩
+        by simp [State.new], by simp [State.new], by simp [State.new, compsOk],
+        by simp [State.new], by simp [State.new]⟩
     obtain ⟨hT, hs, _, hk⟩ := tarjanLoop_post g _ g.keys State.new st
       (fun k hk => by simp [Graph.nodes, hk]) hT0 rfl h1
     have hmem : ∀ x, Has st x ↔ x ∈ st.components.flatten := fun x => by rw [hT.vis x, hs]; simp
@@ -562,5 +634,54 @@ theorem tarjan_topo (g : Graph) (hkeys : g.keys.Nodup) (comps : List (List Nat))
       rcases hback pre c post hsplit k hkc' n e with h | h
       · rw [hsplit]; simp [h]
       · rw [hsplit]; simp [h]
+
+/-- the other half of Tarjan's theorem: the members of every returned component
+reach each other (so a component of more than one name is a genuine cycle) -/
+theorem tarjan_scc (g : Graph) (comps : List (List Nat)) (h : tarjan g = .ok comps) :
+    ∀ c, c ∈ comps → ∀ x y, x ∈ c → y ∈ c → Reach g x y := by
+  unfold tarjan tarjanFuel at h
+  cases h1 : tarjanLoop g g.nodeCount g.keys State.new with
+  | error e => simp [h1, bind, Except.bind] at h
+  | ok st =>
+    simp only [h1, bind, Except.bind, Except.ok.injEq] at h
+    subst h
+    have hT0 : TjInv g State.new :=
+      ⟨by simp [State.new], fun x => by simp [State.new, Has], fun x hx => by simp [State.new, Has] at hx,
+        by simp [State.new], by simp [State.new], by simp [State.new, compsOk],
+        by simp [State.new], by simp [State.new]⟩
+    obtain ⟨hT, _⟩ := tarjanLoop_post g _ g.keys State.new st
+      (fun k hk => by simp [Graph.nodes, hk]) hT0 rfl h1
+    exact hT.scc
+
+/-- with components in reverse topological order whose members reach each
+other, a graph in which no constant reaches itself passes both cycle tests of
+`find_compilation_order` -/
+theorem cycle_tests_pass (g : Graph) (hkeys : g.keys.Nodup) (comps : List (List Nat))
+    (topo : TopoOrder g comps)
+    (hscc : ∀ c, c ∈ comps → ∀ x y, x ∈ c → y ∈ c → Reach g x y)
+    (hacyc : ∀ c d, g.kind c = .const → Edge g c d → ¬ Reach g d c) :
+    selfEdge g g.edges = none ∧ mixedComponent g comps = none := by
+  constructor
+  · cases h : selfEdge g g.edges with
+    | none => rfl
+    | some c =>
+      obtain ⟨hk, rs, hm, hr⟩ := selfEdge_inv g g.edges c h
+      have hl : g.edges.lookup c = some rs := lookup_of_mem_nodup g.edges c rs hkeys hm
+      have e : Edge g c c := by simp [Edge, Graph.refs, hl, hr]
+      exact absurd (Reach.refl c) (hacyc c c hk e)
+  · cases h : mixedComponent g comps with
+    | none => rfl
+    | some c =>
+      obtain ⟨comp, hcomp, hl, hcc, hk⟩ := mixedComponent_inv g comps c h
+      have hnd : comp.Nodup := by
+        obtain ⟨pre, post, hsplit⟩ := List.append_of_mem hcomp
+        have := topo.nodup
+        rw [hsplit] at this
+        simp only [List.flatten_append, List.flatten_cons] at this
+        exact (List.nodup_append.1 (List.nodup_append.1 this).2.1).1
+      obtain ⟨y, hy, hyc⟩ := exists_ne_of_length hnd hl c
+      have sc := hscc comp hcomp
+      obtain ⟨m, e, r⟩ := (sc c y hcc hy).head_of_ne (Ne.symm hyc)
+      exact absurd (r.trans (sc y c hy hcc)) (hacyc c m hk e)
 
 end RotoV.Tarjan
